@@ -25,6 +25,9 @@ pub enum N {
     /// usize::MAX - end + j  (wraps onto position j-1 .. when added to end)
     Wrap(u8),
     Small(u8),
+    /// the length a UTF-8 lead byte at the current end announces (1 for any other byte) + delta: meaningful for str
+    /// sources, and exactly what must *not* matter for byte sources
+    Announced(i8),
 }
 
 fn n_strategy() -> BoxedStrategy<N> {
@@ -34,6 +37,7 @@ fn n_strategy() -> BoxedStrategy<N> {
         2 => (0u8..4).prop_map(N::Max),
         3 => (0u8..12).prop_map(N::Wrap),
         2 => (0u8..6).prop_map(N::Small),
+        2 => (-1i8..=1).prop_map(N::Announced),
     ]
     .boxed()
 }
@@ -51,7 +55,9 @@ pub struct Case {
 }
 
 const STR_ATOMS: &[&str] = &["a", "é", "日本", "12", " ", "+", "😀", "\"x\"", "ß", "\n"];
-const BYTE_ATOMS: &[&[u8]] = &[b"a", b"12", b" ", b"\x00", b"\x80\xff", b"<a>", b"\xc3\xa9"];
+const BYTE_ATOMS: &[&[u8]] = &[
+    b"a", b"12", b" ", b"\x00", b"\x80\xff", b"<a>", b"\xc3\xa9", b"\xc3", b"\xe2", b"\xe2\x82", b"\xf0", b"\xf0\x9f", b"\xf4\x8f\xbf", b"\xc2", b"\xdf\xe0", b"\xef\xbf",
+];
 
 /// chars whose encodings hold the extreme lead and continuation byte values (0x80 / 0xBF in every position)
 pub const EDGE_CHARS: &[char] = &[
@@ -69,7 +75,15 @@ pub fn case_strategy() -> BoxedStrategy<Case> {
             let mut input = Vec::new();
             for (a, c) in atoms {
                 if bytes_mode {
-                    input.extend_from_slice(BYTE_ATOMS[(a as usize * BYTE_ATOMS.len()) >> 8]);
+                    if let Some(c) = c {
+                        // an encoded char cut short by 0..3 bytes: byte sources hold lead bytes without their continuation
+                        let mut buf = [0; 4];
+                        let enc = c.encode_utf8(&mut buf).as_bytes();
+                        let keep = enc.len() - (a as usize % enc.len());
+                        input.extend_from_slice(&enc[..keep]);
+                    } else {
+                        input.extend_from_slice(BYTE_ATOMS[(a as usize * BYTE_ATOMS.len()) >> 8]);
+                    }
                 } else if let Some(c) = c {
                     input.extend_from_slice(c.encode_utf8(&mut [0; 4]).as_bytes());
                 } else {
@@ -93,6 +107,15 @@ fn resolve(n: &N, src: &[u8], is_str: bool, end: usize) -> usize {
         N::Max(k) => usize::MAX - *k as usize,
         N::Wrap(j) => (usize::MAX - end).wrapping_add(*j as usize),
         N::Small(k) => *k as usize,
+        N::Announced(d) => {
+            let w = match src.get(end) {
+                Some(0xC2..=0xDF) => 2,
+                Some(0xE0..=0xEF) => 3,
+                Some(0xF0..=0xF4) => 4,
+                _ => 1,
+            };
+            (w as i64 + *d as i64).max(0) as usize
+        }
     }
 }
 
@@ -242,6 +265,7 @@ fn n_json(n: &N) -> serde_json::Value {
         N::Max(k) => json!({"max": k}),
         N::Wrap(j) => json!({"wrap": j}),
         N::Small(k) => json!({"small": k}),
+        N::Announced(d) => json!({"announced": d}),
     }
 }
 fn n_from(v: &serde_json::Value) -> N {
@@ -253,6 +277,8 @@ fn n_from(v: &serde_json::Value) -> N {
         N::Max(k.as_u64().unwrap() as u8)
     } else if let Some(j) = v.get("wrap") {
         N::Wrap(j.as_u64().unwrap() as u8)
+    } else if let Some(d) = v.get("announced") {
+        N::Announced(d.as_i64().unwrap() as i8)
     } else {
         N::Small(v["small"].as_u64().unwrap_or(0) as u8)
     }
